@@ -19,6 +19,7 @@ func init() {
 	vrt.Register("C11_index_of_another_type", IndexOfAnotherType)
 	vrt.Register("C11_narrow_integer_keys", NarrowIntegerKeys)
 	vrt.Register("C11_receiver_forms", ReceiverForms)
+	vrt.Register("C11_repeated_names", RepeatedNames)
 }
 
 type T struct {
@@ -617,5 +618,60 @@ func ReceiverForms() {
 	got, err := render(c.in, ctx)
 	vrt.Assert(err == nil, "a method reachable in Go renders through a value and through a pointer: "+c.in)
 	vrt.Assert(got == c.want, "each call runs the method it names on the receiver it names: "+c.in)
+	vrt.Cover("done")
+}
+
+// ---- the same field / key name on consecutive levels of a path, up to five
+// levels deep, through slices and maps, ending in a field, a method or an
+// index: every level must resolve against the element reached so far, never
+// against an outer level of the same name
+type Nd struct {
+	Name string
+	Kids []Nd
+	Sub  map[string]Nd
+}
+
+func (n Nd) Get() string { return n.Name }
+
+// every node is named after its own position in the tree, so no two nodes
+// print alike (121 nodes: concrete names keep the solver out of it)
+func mkNd(name string, depth int) Nd {
+	n := Nd{Name: name}
+	if depth > 0 {
+		n.Kids = []Nd{mkNd(name+"0", depth-1), mkNd(name+"1", depth-1)}
+		n.Sub = map[string]Nd{"k": mkNd(name+"k", depth-1)}
+	}
+	return n
+}
+
+func RepeatedNames() {
+	r := mkNd("n", 4)
+	ctx := plush.NewContext()
+	ctx.Set("x", []Nd{r})
+	ctx.Set("r", r)
+	ctx.Set("tree", map[string]Nd{"r": r})
+	ctx.Set("Kids", []Nd{{Name: "outer"}, {Name: "outer"}}) // a context variable named like the field
+	type cs struct {
+		expr string
+		want string
+	}
+	cases := []cs{
+		{"x[0].Kids[1].Name", r.Kids[1].Name},
+		{"x[0].Kids[1].Kids[0].Name", r.Kids[1].Kids[0].Name},
+		{"x[0].Kids[1].Kids[0].Kids[1].Name", r.Kids[1].Kids[0].Kids[1].Name},
+		{"x[0].Kids[1].Kids[0].Kids[1].Kids[0].Name", r.Kids[1].Kids[0].Kids[1].Kids[0].Name},
+		{"x[0].Kids[0].Kids[0].Kids[0].Name", r.Kids[0].Kids[0].Kids[0].Name},
+		{"r.Kids[1].Kids[0].Kids[1].Name", r.Kids[1].Kids[0].Kids[1].Name},
+		{"r.Kids[0].Kids[1].Kids[0].Kids[1].Name", r.Kids[0].Kids[1].Kids[0].Kids[1].Name},
+		{"x[0].Kids[1].Kids[0].Kids[1].Get()", r.Kids[1].Kids[0].Kids[1].Get()},
+		{"tree[\"r\"].Sub[\"k\"].Sub[\"k\"].Sub[\"k\"].Name", r.Sub["k"].Sub["k"].Sub["k"].Name},
+		{"tree[\"r\"].Sub[\"k\"].Kids[1].Sub[\"k\"].Kids[0].Name", r.Sub["k"].Kids[1].Sub["k"].Kids[0].Name},
+		{"x[0].Kids[1].Sub[\"k\"].Kids[0].Name", r.Kids[1].Sub["k"].Kids[0].Name},
+		{"r.Sub[\"k\"].Sub[\"k\"].Kids[1].Name", r.Sub["k"].Sub["k"].Kids[1].Name},
+	}
+	c := cases[vrt.Choice(len(cases))]
+	got, err := render("<%= "+c.expr+" %>", ctx)
+	vrt.Assert(err == nil, "a path with a repeated field name renders: "+c.expr)
+	vrt.Assert(got == c.want, "every level of a path resolves against the element reached so far: "+c.expr)
 	vrt.Cover("done")
 }
